@@ -186,6 +186,14 @@ def run(ctx):
         o = impl[base + k]
         if o != exp:
             ctx.fail("value-" + p.split(":")[0], "%s path returns %s, the encoded values are %s" % (p, o[:200], exp[:200]), [cases[k]], [o], exp)
+    # ---- [spec_tie] BEGIN: the Coq specification (BinDoc.spec_value at the entry points' fuel, BinDoc.enc_doc, flat_doc,
+    # wf_doc, tape_ok_doc -- what Props/C04_walk.v is stated over) extracted and run on the documents, configurations and
+    # shapes generated above; see props/spectie.py.  (a) D.render_bin = enc_doc of the converted document, byte for
+    # byte; (b) D.expected = spec_value; (c) every path's value above = spec_value; plus: the implementation's binary
+    # tape of the rendering = flat_doc.
+    from props import spectie
+    spectie.run_bin(ctx, cases, meta, impl, base, ctx.scale(1500, 12000))
+    # ---- [spec_tie] END
 
     # I64 tokens (C03 finding B shows through the tape path)
     cases, meta = gen_cases(ctx, ctx.scale(250, 2000), i64=True, rgb_any=False, tag="i64")
@@ -202,6 +210,7 @@ def run(ctx):
                     ctx.fail("B-tape-i64", "tape path fails on a document with an I64 token: %s, other paths / encoded values: %s" % (o[:80], exp[:80]), [cases[k]], [o], exp)
             else:
                 ctx.fail("value-" + p.split(":")[0], "%s path returns %s, the encoded values are %s" % (p, o[:200], exp[:200]), [cases[k]], [o], exp)
+    spectie.run_bin(ctx, cases, meta, impl, base, ctx.scale(250, 2000), tag="tie_i64")          # [spec_tie] the I64 documents
 
     # rgb into a dynamically shaped target (finding C: the on-demand path has no RGB arm in deserialize_any)
     cases, meta = gen_cases(ctx, ctx.scale(250, 2000), i64=False, rgb_any=True, tag="rgbany")
@@ -217,6 +226,7 @@ def run(ctx):
                     ctx.fail("C-ondemand-rgb-any", "on-demand path on rgb into deserialize_any: %s, tape/stream and the encoded value: %s" % (o[:80], exp[:80]), [cases[k]], [o], exp)
             else:
                 ctx.fail("value-" + p.split(":")[0], "%s path returns %s, the encoded values are %s" % (p, o[:200], exp[:200]), [cases[k]], [o], exp)
+    spectie.run_bin(ctx, cases, meta, impl, base, ctx.scale(250, 2000), tag="tie_rgbany")       # [spec_tie] rgb into `any` targets
 
     # fixed replay of C
     col = D.tok(0x1000) + D.EQ + D.tok(0x243) + D.OPEN + b"".join(D.tok(0x14) + struct.pack("<I", c) for c in (110, 27, 27)) + D.CLOSE
